@@ -54,6 +54,13 @@ Definition cumsum_noskip_spec (gk : list Z) (vals : list V) (mask : option (list
                      if existsb (is_null o) l then null o else sum_list o l)
       (seq 0 (length gk)).
 
+(* skip_na = False, min / max: a null that is not skipped makes the running extreme null from there on, wherever it stands *)
+Definition cumext_noskip_spec (want_max : bool) (gk : list Z) (vals : list V) (mask : option (list bool)) : list V :=
+  map (fun i => if get (-1) gk i <? 0 then null o
+                else let l := prefix_vals gk vals mask i in
+                     if existsb (is_null o) l then null o else if want_max then max_exec o l else min_exec o l)
+      (seq 0 (length gk)).
+
 (* rolling: the last `window` selected rows of the group ending at row i *)
 Definition lastn {A} (n : nat) (l : list A) : list A := skipn (length l - n) l.
 
